@@ -307,3 +307,41 @@ CLAIMS = {
                      'condition and of equality_test vs CPython operator oracle (ast only)',
     },
 }
+
+# Rules added after the third round of seeded changes (DESIGN.md 10.7); appended to the claim texts above.
+_ADDENDA = {
+    'C01': "The merge table includes feedback whose rendered message is blank.",
+    'C02': "The correctness table includes triggered negative feedback with a blank message (alone, in pairs and "
+           "triples).",
+    'C04': "runtime_error.__init__ is executed abstractly for the message texts a student exception can have "
+           "(empty, one character, ordinary, failing __str__); ExpandedTraceback.__init__ is executed on a 12-frame "
+           "model traceback with CPython's extract_tb(limit) semantics, the location having to be the innermost "
+           "entry's raising line plus that file's offset.",
+    'C05': "Acquisition is all-or-nothing: _start_patches is executed with the k-th patch failing to start "
+           "(block_module('time')) and must leave nothing started or tracked; _start_mocking must push exactly the "
+           "buffer it patches in and none when _start_patches fails; the cross-thread release is also run with a "
+           "grader that is not the main thread.",
+    'C07': "The six output assertions are executed abstractly on call-result, sandbox and error operands: the "
+           "relation must be applied to the asserted execution's own output (R10).",
+    'C08': "ensure_import / prevent_import are executed abstractly on model programs with aliased, multi-alias and "
+           "from-imports (complementary, and keyed on the module name).",
+    'C09': "TifaCore._issue is executed on issue sequences and must record every issue under its label; the quick "
+           "tier's curated programs include names known to an enclosing path and touched on one side only.",
+    'C10': "__expr__ placeholders: merging an inherited match with the match in progress (AstMap and "
+           "binflex_helper, both operands) must leave the placeholder bound to the subtree at its position.",
+    'C13': "Override sequences include the same field twice, interleaved classes and calls failing half-way.",
+    'C14': "timeout() is executed abstractly against three model threads (finishes in time, dies when terminated, "
+           "never dies) with an operation budget: timed join of the allowed duration, terminate, TimeoutError.",
+    'C15': "run() and call() are executed abstractly for inputs in {None, [], '', list, str, ()}: an explicit inputs "
+           "argument reaches set_input before the student code runs.",
+    'C17': "The traceback line rule of C04 (deep model traceback) is shared.",
+    'C18': "Sibling rule over every TIFA issue constructor (executed abstractly): the location handed in is the "
+           "location Feedback.__init__ receives.",
+    'C19': "Tables built through helper functions and ** spreads are evaluated by interpreting the helpers.",
+    'C20': "Override sequences include the same field twice, interleaved classes and calls failing half-way "
+           "(restoration must still be complete).",
+}
+for _k, _v in _ADDENDA.items():
+    CLAIMS[_k]['text'] = CLAIMS[_k]['text'].rstrip() + ' ' + _v
+CLAIMS['C07']['note'] = CLAIMS['C07']['note'].replace(", the output-assertion family beyond the errors() disjunct", "; equality_test's normalisation is taken as given by the output-assertion rule")
+CLAIMS['C10']['note'] = CLAIMS['C10']['note'].replace("; __expr__ rebinding", "")
